@@ -1,8 +1,12 @@
 //! C09: checksum helpers and protocol checksums.
-use crate::util::*;
+use vh::*;
 use etherparse::checksum::*;
 
-pub fn run(line: &str) -> String {
+fn main() {
+    main_loop(run);
+}
+
+fn run(line: &str) -> String {
     let mut it = line.split_whitespace();
     let tag = it.next().unwrap();
     match tag {
